@@ -347,27 +347,40 @@ def check_C18(pid, tier, seed, chk):
     chunks = [cases[i::14] for i in range(14)]
     hangs = []
 
+    hung = []
+
+    def run_fs(script, limit):
+        try:
+            p = subprocess.run([fexe], input=script.encode(), stdout=subprocess.PIPE, stderr=subprocess.PIPE, timeout=limit)
+            return p.stdout.decode("utf-8", "replace"), p.returncode
+        except subprocess.TimeoutExpired as e:
+            return (e.stdout or b"").decode("utf-8", "replace"), -999
+
     def work(chunk):
-        script = "\n".join("\n".join(c) for c in chunk) + "\n"
         out, crashed = [], []
         rest = chunk
         guard = 0
         while rest and guard < 20:
             guard += 1
             script = "\n".join("\n".join(c) for c in rest) + "\n"
-            try:
-                p = subprocess.run([fexe], input=script.encode(), stdout=subprocess.PIPE, stderr=subprocess.PIPE, timeout=240 if tier == "quick" else 900)
-                txt, rc = p.stdout.decode("utf-8", "replace"), p.returncode
-            except subprocess.TimeoutExpired as e:
-                # an operation that does not terminate on a post-panic state: liveness, not memory safety; the case is
-                # recorded and skipped
-                txt, rc = (e.stdout or b"").decode("utf-8", "replace"), -999
-                hangs.append(1)
+            txt, rc = run_fs(script, 1200 if tier == "quick" else 2400)
             out.append(txt)
             if rc == 0:
                 break
             done = txt.count("\nDONE ") + (1 if txt.startswith("DONE ") else 0)
-            if done < len(rest) and rc != -999:
+            if done >= len(rest):
+                break
+            if rc == -999:
+                # a case that does not finish: confirm it alone before calling it a hang (the machine may just be busy)
+                t1, r1 = run_fs("\n".join(rest[done]) + "\n", 600)
+                if r1 == -999:
+                    hung.append(rest[done])
+                    hangs.append(1)
+                elif r1 != 0:
+                    crashed.append(rest[done])
+                else:
+                    out.append(t1)
+            else:
                 crashed.append(rest[done])
             rest = rest[done + 1:]
         return "".join(out), crashed
@@ -433,6 +446,13 @@ def check_C18(pid, tier, seed, chk):
         path = chk.write_replay(pid, seed, tier, "oracle-failure", what, c, "", "crash%s" % c[0].split()[1])
         out_lines.append("VIOLATION property=%s replay=%s" % (pid, path))
         violations += 1
+    for c in hung[:3]:
+        what = ["oracle-failure: after an injected panic an operation of this case did not return within 10 minutes (run alone): the cache "
+                "can no longer be called",
+                "replay: work/harness-target/release/faultscan < this file"]
+        path = chk.write_replay(pid, seed, tier, "oracle-failure", what, c, "", "hang%s" % c[0].split()[1])
+        out_lines.append("VIOLATION property=%s replay=%s" % (pid, path))
+        violations += 1
     if unexpected and violations == 0:
         r = unexpected[0]
         head = re.split(r"INJC? ", r, 1)[-1].split(" | ")[0]
@@ -461,7 +481,7 @@ def check_C18(pid, tier, seed, chk):
                     "pointer-checked structural audit after every operation, quarantined+poisoned freed memory and serial-numbered objects; non-trivial = injection that fired",
                samples=[dict(case=c[0], ops=c[1:6]) for c in cases[:2]],
                abort_model_records=abort_stats, traces_validated_against_impl=abort_stats["ok"],
-               cases=done_cases, hangs_skipped=len(hangs), user_calls=total_calls, injections_fired=fired, sites=sites, crashed_cases=len(crashed),
+               cases=done_cases, hangs=len(hangs), user_calls=total_calls, injections_fired=fired, sites=sites, crashed_cases=len(crashed),
                notes=notes + proof_break, exhaustive=False)
     chk.write_evidence(pid, tier, seed, time.time() - t0, cov,
                        ["the abort-semantics model covers RawLRU (put, get, peek*, contains, *_or_put, remove, remove_lru, purge, resize, clone; nodes AND the "
